@@ -269,6 +269,28 @@ var extras = map[string][]func(c *Ctx){}
 // transport-level stages can live in their own files.
 func RegisterExtra(prop string, f func(c *Ctx)) { extras[prop] = append(extras[prop], f) }
 
+var extraReplays = map[string][]func(c *Ctx, raw json.RawMessage) bool{}
+
+// RegisterReplay adds a replay handler for the cases of an extra stage; it returns true when the
+// recorded case was one of its own.
+func RegisterReplay(prop string, f func(c *Ctx, raw json.RawMessage) bool) {
+	extraReplays[prop] = append(extraReplays[prop], f)
+}
+
+// ReplayAny re-runs one recorded case with whichever stage recognises it.
+func (s *Scenario) ReplayAny(prop string, c *Ctx, raw json.RawMessage) bool {
+	for _, f := range extraReplays[prop] {
+		if f(c, raw) {
+			return true
+		}
+	}
+	if s.Replay == nil {
+		return false
+	}
+	s.Replay(c, raw)
+	return true
+}
+
 // RunAll runs the main scenario and its extra stages.
 func (s *Scenario) RunAll(prop string, c *Ctx) {
 	s.Run(c)
